@@ -97,7 +97,7 @@ def replay_ops(ops):
         elif o == "new_doc":
             w.new_doc()
         elif o == "new_from":
-            w.new_doc_from(op["recs"], op.get("bundle", False))
+            w.new_doc_from(op["recs"], op.get("bundle", False), dec_name(op["id"]) if op.get("id") else None)
         elif o == "factory":
             w.factory(op["c"], op["f"], dec_name(op["id"]), [dec_value(w, a) for a in op["args"]],
                       dec_attrs(w, op["other"]) if op["other"] else None)
